@@ -34,7 +34,12 @@ sys.path.insert(0, os.path.join(lib.VERIF, 'harness', 'props'))
 import c12_gen as G      # noqa: E402
 
 PROP = 'C12'
-THEOREMS = []            # filled below once the proofs exist
+THEOREMS = [
+    'C12_sound', 'C12_subsumption', 'C12_union_type_sound', 'C12_std_sig_wf',
+    'C12_std_common_upper_bound', 'C12_std_common_symmetric', 'C12_std_common_order_independent',
+]
+REFUTED = ['C12_sound_without_clean_refuted', 'C12_common_type_symmetry_refuted']
+KF_TUPLE = 'C12-tuple-arity-subclass'
 IMPL = os.path.join(lib.VERIF, 'harness', 'impl', 'c12_impl.py')
 COQ_DIR = os.path.join(lib.COQ, 'theories', 'C12')
 WORK = os.path.join(lib.CACHE, 'c12')
@@ -141,32 +146,39 @@ def corpus():
 
 
 def gen_cases(tier, g: G.G):
-    """-> list of (kind, exprline)"""
+    """-> list of (kind, expr term)"""
     r = lib.rng('C12')
     cases = []
     u0 = g.universe(0)
     u1 = g.universe(1)
     u2 = g.universe(2)
     if tier == 'quick':
-        cases += list(G.stream_binops(g, u0))
-        # the non-core scalars and collections against a small probe set
-        probe = [x for x in u1 if x[0] in ('std::int64', 'std::float64', 'std::str', 'std::json')]
+        cases += list(G.stream_binops(g, u0))                        # exhaustive: infix ops x core^2
         rest = [x for x in u2 if x not in u0]
+        probe = [x for x in u0 if x[0] in ('std::int64', 'std::str')]
+        extra = []
         for name in g.infix:
             for (_, a) in rest:
-                for (_, b) in probe[:2]:
-                    cases.append(('binop', g.op(name, a, b)))
-                    cases.append(('binop', g.op(name, b, a)))
-                cases.append(('binop', g.op(name, a, a)))
-        cases += list(G.stream_prefix(g, u2))
-        cases += list(G.stream_setlike(g, u1[:40] + r.sample(u2, 12)))
+                for (_, b) in probe:
+                    extra.append(('binop', g.op(name, a, b)))
+                    extra.append(('binop', g.op(name, b, a)))
+                extra.append(('binop', g.op(name, a, a)))
+        cases += r.sample(extra, 3500)
+        cases += list(G.stream_prefix(g, u2))                         # exhaustive: prefix ops x universe
+        cases += list(G.stream_setlike(g, u0))                        # exhaustive: set forms x core^2
+        cases += r.sample(list(G.stream_setlike(g, u1[14:50] + r.sample(u2, 14))), 3500)
         cases += list(G.stream_triples(g))
-        cases += list(G.stream_funcs(g, u1[:30], u0[:8]))
-        cases += list(G.stream_recursive(g))
+        cases += r.sample(list(G.stream_funcs(g, u1[:30], u0[:8])), 3500)
+        poly = {'std::array_agg', 'std::array_unpack', 'std::min', 'std::max', 'std::sum', 'std::count',
+                'std::assert_single', 'std::assert_exists', 'std::assert_distinct', 'std::enumerate',
+                'std::array_get', 'std::array_fill', 'std::contains', 'std::find', 'std::range',
+                'std::multirange', 'std::range_unpack', 'std::array_join', 'std::len', 'std::math::mean'}
+        cases += list(G.stream_funcs(g, u2, u0, names=poly))          # exhaustive: polymorphic functions
+        cases += r.sample(list(G.stream_recursive(g)), 1500)
         cases += list(G.stream_indirection(g, u1))
         cases += list(G.stream_casts(g, u1[:34]))
-        cases += list(G.stream_userfuncs(g, u2))
-        nrand, nmal = 6000, 2500
+        cases += r.sample(list(G.stream_userfuncs(g, u2)), 1000)
+        nrand, nmal = 3000, 1200
     else:
         cases += list(G.stream_binops(g, u1))
         rest = [x for x in u2 if x not in u1]
@@ -197,7 +209,8 @@ def pair_cases(g: G.G, tier):
     sc = [S(n) for n in g.all_scalars + g.no_atom] + [S(n) for n in sorted(ids.abstract)]
     core = [S(n) for n in g.core]
     colls = []
-    for n in g.numeric + ['std::str', 'std::datetime']:
+    for n in (g.numeric + ['std::str', 'std::datetime']) if tier != 'quick' else \
+            ['std::int16', 'std::int64', 'std::float32', 'std::float64', 'std::decimal', 'std::str']:
         colls += [f'(arr {S(n)})', f'(rng {S(n)})', f'(mrng {S(n)})', f'(tup 0 (0 {S(n)}))',
                   f'(tup 1 ({ids.name["a"]} {S(n)}))', f'(tup 0 (0 {S(n)}) (1 {S("std::str")}))']
     colls += ['any', 'anytuple', 'anyobject', '(arr any)', '(rng (s %d))' % ids.scalar['std::anypoint'],
@@ -205,10 +218,630 @@ def pair_cases(g: G.G, tier):
               f'(arr (tup 0 (0 {S("std::float64")})))']
     objs = [f'(obj {ids.objtype[n]})' for n in g.objs] + \
            [f'(obj {ids.objtype[n]})' for n in ('std::Object', 'std::BaseObject', 'std::FreeObject')]
-    univ = sc + colls + objs if tier != 'quick' else core + sc[:20] + colls + objs
+    if tier != 'quick':
+        univ = sc + colls + objs
+    else:
+        univ = core + [S(n) for n in ('default::myint', 'default::myint2', 'default::Color', 'std::anyint',
+                                      'std::anyreal', 'std::cal::local_date', 'std::cal::local_datetime')] \
+            + colls + objs[:6]
     out = []
     for a in univ:
         for b in univ:
             for cmd in 'CDSKPI':
                 out.append(f'{cmd} {a} {b}')
     return out
+
+
+def seed_queries():
+    """upstream tests/test_edgeql_ir_type_inference.py (+ test_edgeql_ir_*_inference) queries: seeds for the
+    monitors (descriptor / expr type / toy evaluator); also recombined"""
+    out = []
+    tdir = os.path.join(lib.REPO, 'tests')
+    for fn in ('test_edgeql_ir_type_inference.py', 'test_edgeql_ir_card_inference.py',
+               'test_edgeql_ir_mult_inference.py'):
+        p = os.path.join(tdir, fn)
+        if not os.path.exists(p):
+            continue
+        src = open(p, encoding='utf-8').read()
+        for m in re.finditer(r'"""\n(.*?)\n% OK %', src, re.S):
+            q = ' '.join(m.group(1).split())
+            if q and len(q) < 400:
+                out.append(q)
+    return out
+
+
+def recombine(seeds, r, n):
+    out = []
+    sel = [q for q in seeds if q.upper().startswith('SELECT') and ';' not in q]
+    for _ in range(n):
+        a, b = r.choice(sel), r.choice(sel)
+        ea, eb = a[6:].strip(), b[6:].strip()
+        k = r.random()
+        if k < 0.3:
+            out.append(f'select (({ea}), ({eb}))')
+        elif k < 0.55:
+            out.append(f'select {{({ea}), ({eb})}}')
+        elif k < 0.7:
+            out.append(f'select array_agg(({ea}))')
+        elif k < 0.85:
+            out.append(f'select (({ea}) ?? ({eb}))')
+        else:
+            out.append(f'select (x := ({ea}), y := [({eb})] if true else [({eb})])')
+    return out
+
+
+# ---------------------------------------------------------------- Coq literals (vm_compute cross-check)
+
+def _sx(s):
+    """tiny s-expression reader -> nested lists / atoms"""
+    out, stack = [], []
+    cur = out
+    i, n = 0, len(s)
+    while i < n:
+        c = s[i]
+        if c == ' ':
+            i += 1
+        elif c == '(':
+            new = []
+            cur.append(new)
+            stack.append(cur)
+            cur = new
+            i += 1
+        elif c == ')':
+            cur = stack.pop()
+            i += 1
+        else:
+            j = i
+            while j < n and s[j] not in ' ()':
+                j += 1
+            cur.append(s[i:j])
+            i = j
+    return out
+
+
+def coq_ty(t):
+    if t == 'any':
+        return 'TAny'
+    if t == 'anytuple':
+        return 'TAnyTuple'
+    if t == 'anyobject':
+        return 'TAnyObject'
+    k = t[0]
+    if k == 's':
+        return f'(TS {t[1]})'
+    if k == 'obj':
+        return f'(TObj {t[1]})'
+    if k == 'union':
+        return '(TUnion [' + '; '.join(t[1:]) + '])'
+    if k in ('arr', 'rng', 'mrng'):
+        return f'({ {"arr": "TArr", "rng": "TRng", "mrng": "TMRng"}[k]} {coq_ty(t[1])})'
+    if k == 'tup':
+        return f'(TTup {"true" if t[1] == "1" else "false"} [' + '; '.join(f'({n}, {coq_ty(e)})' for n, e in t[2:]) + '])'
+    raise ValueError(t)
+
+
+def coq_expr(e):
+    if e == 'empty':
+        return 'EEmpty'
+    k = e[0]
+    if k == 'lit':
+        return f'(ELit {e[1]})'
+    if k == 'cast':
+        return f'(ECast {coq_ty(e[1])} {coq_expr(e[2])})'
+    if k == 'tuple':
+        return f'(ETuple {"true" if e[1] == "1" else "false"} [' + '; '.join(f'({n}, {coq_expr(x)})' for n, x in e[2:]) + '])'
+    if k == 'array':
+        return '(EArray [' + '; '.join(coq_expr(x) for x in e[1:]) + '])'
+    if k == 'set':
+        return '(ESet [' + '; '.join(coq_expr(x) for x in e[1:]) + '])'
+    if k == 'op':
+        return f'(EOp {e[1]} [' + '; '.join(coq_expr(x) for x in e[2:]) + '])'
+    if k == 'call':
+        return f'(ECall {e[1]} [' + '; '.join(coq_expr(x) for x in e[2]) + '] [' + \
+               '; '.join(f'({n}, {coq_expr(x)})' for n, x in e[3]) + '])'
+    if k == 'tidx':
+        return f'(ETupIdx {coq_expr(e[1])} {e[2]})'
+    if k == 'idx':
+        return f'(EIndex {coq_expr(e[1])} {coq_expr(e[2])})'
+    if k == 'objset':
+        return f'(EObj {e[1]})'
+    raise ValueError(e)
+
+
+def coq_ext(ext):
+    scs, obs, cs, fs = _sx(ext)[0]
+    b = lambda x: 'true' if x == '1' else 'false'     # noqa: E731
+    S = '[' + '; '.join(f'mk_scalar {i} {b(ab)} {b(en)} [{"; ".join(anc)}]' for i, ab, en, anc in scs) + ']'
+    O = '[' + '; '.join(f'mk_objtype {i} [{"; ".join(anc)}]' for i, anc in obs) + ']'
+    TM = {'one': 'TmOne', 'opt': 'TmOpt', 'set': 'TmSet'}
+    PK = {'pos': 'PkPos', 'var': 'PkVar', 'named': 'PkNamed'}
+    F = []
+    for k, (nm, isop, ab, rc, dv, ps, rm, rt) in enumerate(fs):
+        P = '[' + '; '.join(f'mk_param {pn} {PK[pk]} {TM[pm]} {coq_ty(pt)} {b(pd)}' for pn, pk, pm, pt, pd in ps) + ']'
+        F.append(f'mk_callable {100001 + k} {nm} {b(isop)} {b(ab)} {b(rc)} '
+                 f'{"None" if dv == "-" else "(Some " + dv + ")"} {P} {TM[rm]} {coq_ty(rt)}')
+    return f'(sig_extend std_sig {S} {O} [] [{"; ".join(F)}])'
+
+
+COQ_REQ = ('From Coq Require Import List NArith ZArith Bool. Import ListNotations.\n'
+           'From Verif.C12 Require Import Model Gen_StdSig Proofs.\nLocal Open Scope N_scope.\n'
+           'Definition res_is (r : res (ty * bool)) (t : ty) (c : bool) : bool :=\n'
+           '  match r with Ok (t1, c1) => ty_eqb t1 t && Bool.eqb c1 c | Err _ => false end.\n'
+           'Definition res_err (r : res (ty * bool)) : bool := match r with Ok _ => false | Err _ => true end.\n')
+
+
+def coq_check_expr(ext_coq, expr_term, model_res):
+    """a Coq boolean that is true iff vm_compute inside Coq agrees with the extracted binary"""
+    e = coq_expr(_sx(expr_term)[0])
+    call = f'stmt_type_clean USIG s_int64 {e}'
+    if model_res.startswith('OK '):
+        body = model_res[3:]
+        clean = 'true'
+        if body.endswith(' unclean'):
+            body, clean = body[:-8], 'false'
+        return f'res_is ({call}) {coq_ty(_sx(body)[0])} {clean}'
+    return f'res_err ({call})'
+
+
+# ---------------------------------------------------------------- shrinking
+
+def subexprs(t):
+    """all proper sub-expressions of an expression term (as nested lists)"""
+    out = []
+    if not isinstance(t, list):
+        return out
+    k = t[0]
+    kids = []
+    if k == 'cast':
+        kids = [t[2]]
+    elif k == 'tuple':
+        kids = [x for _, x in t[2:]]
+    elif k in ('array', 'set'):
+        kids = t[1:]
+    elif k == 'op':
+        kids = t[2:]
+    elif k == 'call':
+        kids = list(t[2]) + [x for _, x in t[3]]
+    elif k == 'tidx':
+        kids = [t[1]]
+    elif k == 'idx':
+        kids = [t[1], t[2]]
+    for c in kids:
+        out.append(c)
+        out += subexprs(c)
+    return out
+
+
+def unsx(t):
+    if isinstance(t, list):
+        return '(' + ' '.join(unsx(x) for x in t) + ')'
+    return t
+
+
+def shrink_expr(expr_term, bad):
+    """greedy sub-term hoisting: bad(list of expr terms) -> list of bool"""
+    cur = expr_term
+    for _ in range(8):
+        cands = []
+        seen = set()
+        for s_ in subexprs(_sx(cur)[0]):
+            u = unsx(s_)
+            if u not in seen and len(u) < len(cur):
+                seen.add(u)
+                cands.append(u)
+        if not cands:
+            break
+        cands.sort(key=len)
+        res = bad(cands)
+        hit = [c for c, b in zip(cands, res) if b]
+        if not hit:
+            break
+        cur = hit[0]
+    return cur
+
+
+# ---------------------------------------------------------------- run
+
+def is_tuple_arity_flag(flag):
+    """arg-nonconforming[f:i:tuple<..>->tuple<..>] where the two tuple types differ in arity at
+    some tuple nesting level (the predicate of known finding C12-tuple-arity-subclass)"""
+    m = re.match(r'arg-nonconforming\[(.*?):(\d+):(.*)->(.*)\]$', flag)
+    if not m:
+        return False
+    a, b = m.group(3), m.group(4)
+
+    def shape(s):
+        # tuple<x,y<..>> -> nested arity structure
+        s = s.strip()
+        if not s.startswith('tuple<'):
+            return None
+        depth, parts, cur = 0, [], ''
+        for ch in s[6:-1]:
+            if ch == '<':
+                depth += 1
+            elif ch == '>':
+                depth -= 1
+            if ch == ',' and depth == 0:
+                parts.append(cur)
+                cur = ''
+            else:
+                cur += ch
+        if cur:
+            parts.append(cur)
+        return [shape(p.split(':', 1)[1] if (':' in p and not p.strip().startswith('tuple<') and '::' not in p.split(':', 1)[0]) else p)
+                for p in parts]
+
+    def differ(x, y):
+        if x is None or y is None:
+            return False
+        if len(x) != len(y):
+            return True
+        return any(differ(p, q) for p, q in zip(x, y))
+    return differ(shape(a), shape(b))
+
+
+def run(tier):
+    rep = lib.Report(PROP, tier, 'proof')
+    thorough = tier == 'thorough'
+    t_start = time.time()
+
+    # 1. translator (tie a)
+    man, tr_err = regenerate()
+    stale = False
+    if man is None:
+        mp = os.path.join(COQ_DIR, 'Gen_StdSig.manifest.json')
+        if os.path.exists(mp):
+            man = json.load(open(mp))
+            stale = True
+
+    # 2. proofs
+    pf = lib.proof_stage(rep, 'C12', THEOREMS, extra_targets=['theories/C12/Refuted.vo'], thorough=thorough)
+    rok, rproved, rlog = lib.coq_props('C12', 'Refuted.v') if pf['ok'] else (False, {}, 'skipped')
+    for t in REFUTED:
+        if pf['ok'] and (not rok or rproved.get(t) != []):
+            pf['ok'] = False
+            pf['broken'].append(f'{t}: refutation witness does not check')
+    rep.coverage['refutation_witnesses'] = {t: ('checked' if rproved.get(t) == [] else 'NOT CHECKED')
+                                           for t in REFUTED}
+
+    # 3. model
+    exe, blog = lib.build_model('c12', 'ExtractC12.v', 'c12_main.ml', 'C12_ext')
+
+    if man is None:
+        rep.violation('translator failed and no previous signature table exists: ' + str(tr_err),
+                      {'broken': 'harness/translate/c12_stdsig.py', 'error': tr_err}, False)
+        rep.coverage.update({'evaluations': 0, 'distinct_nontrivial': 0, 'rule': 'nothing ran', 'samples': [],
+                             'trusted_base': []})
+        return rep.finish()
+
+    ids = G.Ids(man)
+    g = G.G(ids)
+    ext = ids.user_ext()
+    spec = write_spec(ids)
+    spec_n = write_spec(ids, 'N')
+
+    # 4. cases
+    cases = [('corpus', c) for c in corpus()] + gen_cases(tier, g)
+    lines = [f'T {ext} {e}' for _, e in cases]
+    plines_raw = pair_cases(g, tier)
+    plines = [f'{l[0]} {ext} {l[2:]}' for l in plines_raw]
+    seeds = seed_queries()
+    rs = lib.rng('C12seeds')
+    qtexts = seeds + recombine(seeds, rs, 600 if not thorough else 5000) if seeds else []
+    qlines = ['Q ' + q.encode().hex() for q in qtexts]
+
+    t0 = time.time()
+    all_impl = run_impl(['SIGDUMP'] + lines + plines + qlines, spec)
+    impl_s = time.time() - t0
+    sig_real = all_impl[0]
+    impl = all_impl[1:1 + len(lines)]
+    pimpl = all_impl[1 + len(lines):1 + len(lines) + len(plines)]
+    qimpl = all_impl[1 + len(lines) + len(plines):]
+    # determinism probe on a slice (every case compiled twice in one process)
+    nd = min(len(lines), 1500 if not thorough else 15000)
+    step = max(1, len(lines) // nd)
+    didx = list(range(0, len(lines), step))
+    dimpl = run_impl([lines[i] for i in didx], spec_n)
+
+    model = pmodel = None
+    if exe:
+        t0 = time.time()
+        model = lib.run_model(exe, lines)
+        pmodel = lib.run_model(exe, plines)
+        model_s = time.time() - t0
+
+    # 5. signature tie
+    sigdiff = []
+    try:
+        sigdiff = sig_diff(sig_canon_from_manifest(man['sig']), json.loads(sig_real))
+    except Exception as e:      # noqa
+        sigdiff = [f'SIGDUMP unreadable: {type(e).__name__}: {e}: {sig_real[:200]}']
+
+    # 6. compare
+    known = {k['id']: k for k in lib.known_findings(PROP)}
+    mon_fail, kf_hits, hard, soft, clean_mism, harness_err = [], [], [], [], [], []
+    n_ok = n_unsup = n_toy = n_cmp = 0
+    err_kinds, ok_kinds = {}, {}
+    for i, (l, r) in enumerate(zip(lines, impl)):
+        ires, text, bad, toyc = split_impl(r)
+        n_toy += toyc
+        if ires.startswith('HARNESS-ERROR'):
+            harness_err.append(i)
+            continue
+        for b in bad:
+            if is_tuple_arity_flag(b) and KF_TUPLE in known:
+                kf_hits.append((i, b))
+            else:
+                mon_fail.append((i, b))
+        if ires.startswith('OK'):
+            n_ok += 1
+        else:
+            err_kinds[ires] = err_kinds.get(ires, 0) + 1
+        if model is None:
+            continue
+        m = model[i]
+        if m.startswith('BAD'):
+            harness_err.append(i)
+            continue
+        if m == 'ERR Unsupported':
+            n_unsup += 1
+            continue
+        n_cmp += 1
+        unclean = m.endswith(' unclean')
+        mres = m[:-8] if unclean else m
+        flagged = any(is_tuple_arity_flag(b) for b in bad)
+        if ires.startswith('OK') and mres.startswith('OK') and unclean != flagged:
+            clean_mism.append(i)
+        if mres == ires:
+            continue
+        if mres.startswith('ERR') and ires.startswith('ERR') and cases[i][0] in ('random', 'malformed', 'corpus'):
+            soft.append(i)          # both reject; the first error met differs in nested expressions
+        else:
+            hard.append(i)
+    for j, i in enumerate(didx):
+        if 'nondeterministic' in dimpl[j]:
+            mon_fail.append((i, 'nondeterministic'))
+    pmism = []
+    n_pskip = 0
+    if pmodel is not None:
+        for i, (a, b) in enumerate(zip(pimpl, pmodel)):
+            if a == 'SKIP':
+                n_pskip += 1
+                continue
+            if a == 'EXC SchemaError' and plines_raw[i][0] == 'C' and b == 'NONE':
+                continue            # get_topmost_concrete_base raises on an abstract scalar: no common type
+            if a != b:
+                pmism.append(i)
+    qmon = []
+    q_ok = q_toy = 0
+    for i, r in enumerate(qimpl):
+        ires, text, bad, toyc = split_impl(r)
+        q_ok += ires.startswith('OK')
+        q_toy += toyc
+        for b in bad:
+            if is_tuple_arity_flag(b) and KF_TUPLE in known:
+                continue
+            qmon.append((i, b))
+
+    # 7. Coq-internal evaluation of a sample (guards extraction)
+    coq_diff, n_coq = [], 0
+    if model is not None and pf['ok']:
+        r = lib.rng('C12coq')
+        pool = [i for i in range(len(lines)) if not model[i].startswith('BAD') and model[i] != 'ERR Unsupported'
+                and len(lines[i]) < len(ext) + 400]
+        idx = sorted(r.sample(pool, min(120 if not thorough else 600, len(pool))))
+        req = COQ_REQ + f'Definition USIG := {coq_ext(ext)}.\n'
+        try:
+            outs = lib.coq_eval('C12', req, [coq_check_expr(None, cases[i][1], model[i]) for i in idx])
+            n_coq = len(outs)
+            coq_diff = [i for i, o in zip(idx, outs) if o.strip() != 'true']
+        except Exception as e:      # noqa
+            coq_diff = [-1]
+            rep.notes.append('coq_eval failed: ' + str(e)[-500:])
+
+    # ---- verdict
+    def one_both(term):
+        ln = f'T {ext} {term}'
+        return split_impl(run_impl([ln], spec)[0]), (lib.run_model(exe, [ln])[0] if exe else None)
+
+    def bad_batch_monitor(flagname):
+        def f(terms):
+            outs = run_impl([f'T {ext} {t}' for t in terms], spec)
+            return [any(b.split('[')[0] == flagname for b in split_impl(o)[2]) for o in outs]
+        return f
+
+    reported = set()
+    for i, b in mon_fail:
+        key = b.split('[')[0]
+        if key in reported:
+            continue
+        reported.add(key)
+        small = cases[i][1]
+        if key != 'nondeterministic':
+            small = shrink_expr(cases[i][1], bad_batch_monitor(key))
+        (ires, text, bad, _), m = one_both(small)
+        what = {
+            'desc-mismatch': 'the output type descriptor (sertypes.describe) does not denote the inferred result type',
+            'expr-type-mismatch': 'the typeref of the compiled expression does not name the inferred result type',
+            'toy-value-type': 'a value computed by the reference evaluator (edb.tools.toy_eval_model) does not belong '
+                              'to the result type the compiler inferred',
+            'arg-nonconforming': 'a call argument is passed, without a cast, to a parameter whose declared type it '
+                                 'does not structurally conform to',
+            'nondeterministic': 'compiling the same query twice gives different result types',
+        }.get(key, key)
+        rep.violation(f'monitor {key}: {what}: {text}',
+                      {'case': f'T {ext} {small}', 'query': text, 'impl_result': ires, 'monitor_flags': bad,
+                       'model_result': m, 'original_case': lines[i][len(ext) + 3:],
+                       'how': f'VERIF_REPO={lib.REPO} ./harness/check C12 --replay <this file>'})
+    for i, b in qmon[:2]:
+        rep.violation(f'monitor {b} on seed query: {qtexts[i]}',
+                      {'case': qlines[i], 'query': qtexts[i], 'impl_result': qimpl[i]})
+    if kf_hits:
+        ex = min((split_impl(impl[i])[1] for i, _ in kf_hits), key=len)
+        rep.known_finding(KF_TUPLE, known[KF_TUPLE]['what'] + f' ({len(kf_hits)} generated cases hit it, e.g. `{ex}`)')
+
+    if not mon_fail and not qmon:
+        if tr_err:
+            rep.violation('translator fails closed on the current edb/lib (signature table could not be '
+                          f'regenerated): {tr_err}; no failing input found with the previous table',
+                          {'broken': 'harness/translate/c12_stdsig.py (source shape not recognised)', 'error': tr_err,
+                           'stale_table_used': stale}, False)
+        if sigdiff:
+            rep.violation('the translated signature table differs from the signatures of the real schema objects: '
+                          + sigdiff[0][:300], {'broken': 'translator vs real schema (SIGDUMP)', 'differences': sigdiff[:10]},
+                          False)
+        if model is None:
+            rep.violation('model does not build: ' + blog[-1500:], {'broken': 'extraction of theories/C12/Model.v'}, False)
+        else:
+            if hard:
+                def bad_batch(terms):
+                    ls = [f'T {ext} {t}' for t in terms]
+                    a = run_impl(ls, spec)
+                    b = lib.run_model(exe, ls)
+                    out = []
+                    for x, y in zip(a, b):
+                        y = y[:-8] if y.endswith(' unclean') else y
+                        out.append(y != 'ERR Unsupported' and split_impl(x)[0] != y)
+                    return out
+                i = min(hard, key=lambda j: len(lines[j]))
+                small = shrink_expr(cases[i][1], bad_batch)
+                (ires, text, bad, _), m = one_both(small)
+                rep.violation(f'correspondence broken: model type_of and the real compiler disagree on {len(hard)} of '
+                              f'{n_cmp} compared expressions (no monitor failed): {text}: real {ires}, model {m}',
+                              {'broken': 'correspondence C12 Model.stmt_type_clean vs compile_ast_to_ir(...).stype',
+                               'case': f'T {ext} {small}', 'query': text, 'impl_result': ires, 'model_result': m,
+                               'disagreements': len(hard),
+                               'by_stream': {k: sum(1 for j in hard if cases[j][0] == k) for k in {cases[j][0] for j in hard}}},
+                              False)
+            if clean_mism:
+                i = clean_mism[0]
+                rep.violation('the model\'s "clean" flag and the real IR disagree on whether an argument is passed '
+                              'uncast to a parameter of a different tuple shape',
+                              {'broken': 'correspondence (clean flag vs monitor arg-nonconforming)', 'case': lines[i],
+                               'impl': impl[i], 'model': model[i]}, False)
+            if pmism:
+                i = pmism[0]
+                rep.violation(f'correspondence broken: type algebra ({plines_raw[i][0]}: C=find_common, D=cast distance, '
+                              f'S=issubclass, K=is_type_compatible, P=parent distance, I=implicitly_castable) differs on '
+                              f'{len(pmism)} pairs: {plines_raw[i]}: real {pimpl[i]}, model {pmodel[i]}',
+                              {'broken': 'correspondence C12 type algebra', 'case': plines[i], 'impl_result': pimpl[i],
+                               'model_result': pmodel[i], 'disagreements': len(pmism)}, False)
+            if coq_diff:
+                rep.violation('extracted model disagrees with vm_compute inside Coq',
+                              {'broken': 'extraction', 'case': lines[coq_diff[0]] if coq_diff[0] >= 0 else None}, False)
+        if harness_err:
+            i = harness_err[0]
+            rep.violation(f'harness error on {len(harness_err)} cases: {impl[i][:200]} / {model[i] if model else None}',
+                          {'broken': 'harness', 'case': lines[i]}, False)
+        if not pf['ok']:
+            rep.violation('proof obligations no longer check: ' + '; '.join(pf['broken'][:6]),
+                          {'broken': pf['broken'], 'log_tail': pf['log'][-3000:]}, False)
+
+    # ---- evidence
+    kinds = {}
+    for k, _ in cases:
+        kinds[k] = kinds.get(k, 0) + 1
+    distinct = {e for k, e in cases if G.nontrivial(k, e)}
+    valid_by_kind = {}
+    for (k, _), r in zip(cases, impl):
+        a = valid_by_kind.setdefault(k, [0, 0])
+        a[0] += r.startswith('OK')
+        a[1] += 1
+    rtypes = {}
+    for r in impl:
+        if r.startswith('OK'):
+            t = split_impl(r)[0][3:]
+            key = t.split(' ')[0].strip('(') if t.startswith('(') else t
+            rtypes[key] = rtypes.get(key, 0) + 1
+    sizes = {}
+    for _, e in cases:
+        d = min(e.count('('), 40) // 5 * 5
+        sizes[f'{d}-{d + 4} nodes'] = sizes.get(f'{d}-{d + 4} nodes', 0) + 1
+    samp = [cases[i][1] for i in (0, len(cases) // 5, len(cases) // 2, len(cases) - 1)]
+    samp_text = [split_impl(impl[i])[1] + '  =>  ' + split_impl(impl[i])[0]
+                 for i in (0, len(cases) // 5, len(cases) // 2, (3 * len(cases)) // 4, len(cases) - 1)]
+    rep.coverage.update({
+        'evaluations': len(cases) + len(plines) + len(qlines),
+        'distinct_nontrivial': len(distinct),
+        'rule': 'expression cases (s-expression terms rendered to EdgeQL `select <expr>`): every infix operator name x '
+                f'all ordered pairs of {"the scalar+collection universe" if thorough else "the 14 core scalar types"}, '
+                'every prefix operator x the universe (scalars incl. user-defined / enum, arrays, ranges, multiranges, '
+                'tuples, named tuples, object types, {}, []), UNION / ?? / IF / set literal / array literal x pairs, '
+                '3-element sets over the numeric types, every function name with 1 and 2 arguments (polymorphic '
+                'functions x the whole universe), tuple/array comparisons, indirections, casts, user-defined functions, '
+                'seeded random typed trees (depth <= 4, type-family biased), and a malformed stream; non-trivial = at '
+                'least 2 distinct leaf types or a collection constructor / call; distinct = distinct term. Plus '
+                'type-algebra probes (find_common, cast distance, issubclass, is_type_compatible, parent distance, '
+                'implicitly_castable on all ordered pairs of a type universe) and seed queries from upstream '
+                'tests/test_edgeql_ir_*_inference.py, recombined (monitors only)',
+        'exhaustive': False,
+        'exhaustive_subspaces': ['infix operators x core scalar pairs', 'prefix operators x universe',
+                                 'UNION/??/IF/set/array literal x core scalar pairs',
+                                 'polymorphic functions (array_agg, array_unpack, min, max, sum, ...) x universe (arity 1) '
+                                 'and core^2 (arity 2)', 'type algebra on all ordered pairs of the probe universe'],
+        'samples': samp + samp_text,
+        'traces_validated_against_impl': n_cmp + (len(plines) - n_pskip if pmodel is not None else 0),
+        'expressions_compared': n_cmp,
+        'model_abstains_unsupported': n_unsup,
+        'type_algebra_pairs_compared': len(plines) - n_pskip,
+        'model_vs_impl_disagreements': len(hard) + len(pmism) + len(clean_mism),
+        'both_reject_different_first_error': len(soft),
+        'coq_vm_compute_cross_checked': n_coq,
+        'monitor_failures': len(mon_fail) + len(qmon),
+        'known_finding_cases': len(kf_hits),
+        'accepted_by_real_compiler': n_ok,
+        'fraction_valid_by_stream': {k: f'{a}/{b}' for k, (a, b) in sorted(valid_by_kind.items())},
+        'stream_sizes': dict(sorted(kinds.items())),
+        'result_type_kinds': dict(sorted(rtypes.items(), key=lambda kv: -kv[1])[:25]),
+        'rejection_kinds': dict(sorted(err_kinds.items(), key=lambda kv: -kv[1])[:20]),
+        'term_sizes': dict(sorted(sizes.items())),
+        'toy_evaluator_value_checks': n_toy + q_toy,
+        'seed_queries': len(seeds), 'seed_queries_recombined': len(qtexts) - len(seeds), 'seed_queries_accepted': q_ok,
+        'determinism_probe_cases': len(didx),
+        'signature_table': man['counts'],
+        'signature_sources': [f'{s["file"]} sha256={s["sha256"][:12]}' for s in man['sources']],
+        'signature_table_equals_real_schema': not sigdiff,
+        'impl_seconds': round(impl_s, 1),
+        'trusted_base': [
+            'Coq 8.16.1 kernel (coqc; coqchk in the thorough tier); vm_compute for the finite checks over the '
+            'generated table, witnesses and the cases.v cross-check',
+            'extraction: ExtrOcamlBasic only, N/Z/positive kept inductive; OCaml 4.13.1; ocaml/conv.ml + c12_main.ml',
+            'translator harness/translate/c12_stdsig.py (fail-closed tokenizer/parser of the CREATE headers; its '
+            'output is compared with the real schema objects on every run)',
+            'correspondence harness harness/props/c12.py + c12_gen.py + harness/impl/c12_impl.py (generators, '
+            'EdgeQL rendering, type term conversion, error-kind classification, monitors)',
+            'runtime substrate harness/rt (stubs, substitute LR parser, real Rust lexer, std schema bootstrap)',
+            'modelled, not verified: the section hypotheses of C12_sound (each primitive returns its declared '
+            'type; casts return their target type) - the SQL bodies of the std library and PostgreSQL are absent; '
+            'tuple types are treated as non-persistent in is_type_compatible; explicit casts from json / to and '
+            'from object types, union-typed operands, shapes, paths, DML, GROUP, FOR are outside the calculus '
+            '(the model abstains: counted as model_abstains_unsupported)',
+        ],
+    })
+    rep.assumptions = [
+        'every operator/function implementation returns values of its declared (instantiated) return type '
+        '(section hypothesis Hprim of C12_sound); casts produce values of their target type (Hcast)',
+        'values: only where edb.tools.toy_eval_model implements the operation are evaluated values checked '
+        'against the real compiler\'s inferred type (monitor toy-value-type); no PostgreSQL here',
+    ]
+    for f_ in (spec, spec_n):
+        try:
+            os.remove(f_)
+        except OSError:
+            pass
+    return rep.finish()
+
+
+def replay(path):
+    d = json.load(open(path))
+    case = d['replay'].get('case')
+    man = json.load(open(os.path.join(COQ_DIR, 'Gen_StdSig.manifest.json')))
+    ids = G.Ids(man)
+    spec = write_spec(ids)
+    exe, _ = lib.build_model('c12', 'ExtractC12.v', 'c12_main.ml', 'C12_ext')
+    print('case :', case if len(case) < 3000 else case[:100] + ' ... ' + case[-400:])
+    out = run_impl([case], spec)[0]
+    print('impl :', out)
+    if exe and not case.startswith('Q '):
+        print('model:', lib.run_model(exe, [case])[0])
+    return 0
